@@ -140,11 +140,14 @@ def main():
             cells.append((spec, rel, 1, frozenset([0]), frozenset([1]), cap, 2))
             cells.append((spec, rel, 1, frozenset([2]), frozenset([3]), cap, 2))
     else:
-        cap, wk = int(os.environ.get('C20_CELL_CAP', '900')), 4
-        for spec, rel in SPECS:
-            for mv in (1, 2):
-                for f in [E] + singles:
-                    for d in [E] + singles:
+        cap, wk = int(os.environ.get('C20_CELL_CAP', '600')), 4
+        # cheap classes first (all-good, dead-only, then faulty), MaxView=1 before 2, so that a budget cut loses the
+        # most expensive cells only
+        classes = [[(E, E)], [(E, d) for d in singles], [(f, d) for f in singles for d in [E] + singles]]
+        for mv in (1, 2):
+            for cl in classes:
+                for spec, rel in SPECS:
+                    for f, d in cl:
                         cells.append((spec, rel, mv, f, d, cap, wk))
     deadline = t0 + (170 if tier == 'quick' else int(os.environ.get('C20_BUDGET', str(3 * 3600))))
 
